@@ -678,6 +678,27 @@ def run(rep, tier, only=None):
                     rep.inconc("replay of %s %s failed: %s" % (gname, case, why))
                 else:
                     rep.inconc("engine mismatch (%s) %s: %s; %s" % (gname, case, v, why))
+    # generic parameters in alias targets and with unsorted parameter lists keep their bare name under a prefix (shared with C09's harness)
+    if not only or "generic-alias" in only:
+        from checks import c09
+        gcases = [(l, sh, True) for l in ("swift", "kotlin") for sh in ("alias-nested", "struct-two-params-unsorted", "struct-three-params-unsorted")]
+        rep.harnesses["generic-alias"] = len(gcases)
+        rep.bounds["generic parameters under a prefix"] = "Swift / Kotlin with a prefix: generic aliases (`Vec<Option<T>>`, `HashMap<String, Wrap<T>>`) and items with unsorted parameter lists, parameter name symbolic: never prefixed"
+        for st, case, r in pmap(("checks.c09", "case_generic_param"), gcases):
+            rep.obligations += 1
+            if st != "ok":
+                rep.inconc("generic-alias %s: %s" % (case, r)); continue
+            account(rep, r); rep.discharged += 1
+            for v in r["violations"][:1]:
+                sig = {"group": "generic-alias", "lang": case[0], "shape": case[1], "kind": v["kind"]}
+                ok, why, src, cfg = c09.native_generic_param(nat, case, v)
+                rep.validated += 1
+                if ok:
+                    rep.violation(sig, why, {"group": "generic-alias", "source": src, "lang": case[0], "config": cfg, "generic_param": list(case), "v": v})
+                elif ok is None:
+                    rep.inconc("replay failed for generic-alias %s: %s" % (case, why))
+                else:
+                    rep.inconc("engine mismatch generic-alias %s: %s; %s" % (case, v, why))
     nat.close()
     rep.extra["explore_s"] = round(time.time() - t0, 1)
 
@@ -768,6 +789,13 @@ def native_b(nat, gname, case, v):
 
 def replay(case):
     c = case["case"]
+    if c.get("group") == "generic-alias":
+        from checks import c09
+        nat = Replayer()
+        ok, why, _, _ = c09.native_generic_param(nat, tuple(c["generic_param"]), c["v"])
+        nat.close()
+        print(why)
+        return 1 if ok else 0
     rep = Replayer()
     if c.get("group") == "parser":
         print(str(rep.ask({"op": "parse", "source": c["source"]}))[:600])
